@@ -8,6 +8,10 @@ import subprocess
 ROOT = os.path.dirname(os.path.dirname(os.path.abspath(__file__)))
 # subject prefix of the fix: commit -> (properties, what failed before the repair, how the checks showed it)
 FIXED = {
+    'fix: a WAL file that ends right behind a record header': (['C10', 'C02'], 'a file cut exactly behind a 7-byte record header read as cleanly ended: ReuseWAL appended behind the orphaned header and acknowledged writes were lost at the next open', 'C10 fault enumeration: cut at record offset + 7, post-recovery writes missing at the second open (findings/C10_eof_behind_header.json)'),
+    'fix: drop the fragments of a WAL entry that can no longer be completed': (['C10'], 'stale fragments stayed pending after a read error or when FULL/FIRST followed an unfinished entry: an old entry was delivered late in place of a later fragmented one', 'C10: type byte LAST->FIRST/MIDDLE (findings/C10_stale_fragments_reordered.json)'),
+    'fix: end the replay of a WAL file at its first damaged record': (['C10'], 'after a damaged record the reader skipped 32 KB blindly and parsed key/value bytes as records: forged or altered entries were delivered and appeared in the engine', 'C10 (findings/C10_blind_skip_forged_entry.json, C10_blind_skip_altered_value.json)'),
+    'fix: reject a WAL entry whose encoding does not fill its record exactly': (['C10'], 'parseEntryData ignored trailing bytes: a fragment retyped to FULL whose chunk begins like an entry was delivered as that entry', 'C10 (findings/C10_retyped_fragment_parsed_as_entry.json)'),
     'fix: land Seek and Find on the node the skiplist descent saw': (['C18', 'C05'], 'lock-free Seek/Find loaded the level-0 successor a second time after the descent: a concurrent Insert of a smaller key made Seek land BEFORE its target and Find report an existing key as absent', 'TLC on KevoMem (ReaderSeesAtLeastPrefix violated, 3 inserts), then reproduced on the real code by parking the reader at sl.seek.descended / sl.find.descended'),
     'fix: SSTable iterator Next on a fresh iterator deadlocked': (['C11', 'C07'], 'the first Next() on an iterator from Reader.NewIterator() never returned (re-locks its own mutex)', 'C11 replay: 294 generated cursor programs that start with Next hang'),
     'fix: validate the stored bloom filter header': (['C11'], 'one altered byte in a bloom filter size field made OpenReader die with an out-of-memory fatal error / makeslice panic instead of an error', 'C11 corruption sweep'),
